@@ -245,6 +245,15 @@ Definition tie_state_b : bool :=
   && forallb (fun s => match String.index 0 "=errors.New()" s with Some _ => true | None => String.eqb s "internal/parser/visitor.go:indentBytes=[]byte()" end) gen_globals.
 Lemma tie_state : tie_state_b = true. Proof. vm_compute. reflexivity. Qed.
 
+(* 8b. variables are looked up by NAME: a scope is a map from names (strings) to values plus its parent, a variable
+   node carries the name, a let carries a map from names to the bound expressions and its body.  (Any other key -- an
+   index, a hash of the name -- would make two names one variable for some pair of names.) *)
+Definition tie_scopes_b : bool :=
+  slist_eqb gen_scope_fields ["parent:*variableScope"; "variables:map[string]any"]
+  && slist_eqb gen_variable_node_fields ["Name:string"]
+  && slist_eqb gen_define_variables_fields ["Variables:map[string]Node"; "Child:Node"].
+Lemma tie_scopes : tie_scopes_b = true. Proof. vm_compute. reflexivity. Qed.
+
 (* 9. every statement that writes through a slice, map, pointer or struct field
    targets an object allocated in the same function, a field of a per-call
    struct, or the token out-parameter of the Lexer methods (which the parser points at
